@@ -1,4 +1,6 @@
-(* cli spec: `<doc dump> | <frag dump> | <kinds>` -> done:<dump> | refuse *)
+(* cli spec: `<doc dump> | <frag dump> | <kinds>` -> done:<dump> | refuse
+   the oracle is replace_spec_strict (Spec/XeStrict.v): replace_spec, refusing also when the replacement cannot stand at SOME
+   selected node wherever it lies (C17_strict_refines: it answers replace_spec's document whenever it answers) *)
 let () = register_line "xe" (fun line ->
   match String.split_on_char '|' line with
   | [d; f; kinds] ->
@@ -6,7 +8,7 @@ let () = register_line "xe" (fun line ->
        let (doc, sel) = doc_of (parse_sx (String.trim d)) in
        let frag = frag_of (parse_sx (String.trim f)) in
        if String.contains kinds 'o' then "refuse"
-       else (match replace_spec sel frag doc with
+       else (match replace_spec_strict sel frag doc with
         | Some d' -> "done:" ^ show_doc d'
         | None -> "refuse")
      with Failure m -> "badinput:" ^ m)
